@@ -484,7 +484,7 @@ def enc_tag(out):
 
 def analyse(trace):
     """Map the observed raw-primitive log onto the model's schedule fields and a canonical trace text."""
-    s = dict(getsize='ok', jopen='ok', jwrites=[], jclose='ok', junlink='ok', aopen='ok', adata=[], aouts=[],
+    s = dict(getsize='ok', jopen='ok', jwrites=[], jwrite='ok', jretry='ok', jclose='ok', junlink='ok', aopen='ok', adata=[], aouts=[],
              aclose='ok', ropen='ok', rtrunc='ok', rclose='ok', unlink='ok')
     text = []
     phase = 'pre'
@@ -500,7 +500,8 @@ def analyse(trace):
             name = 'jopen' if arg == 'w' else 'jopen-' + str(arg)
         elif kind == 'write' and role == 'j' and phase == 'j':
             s['jwrites'].append(o)
-            name = 'jwrite=' + enc(arg)
+            s['jwrite' if len(s['jwrites']) == 1 else 'jretry'] = o
+            name = ('jwrite=' if len(s['jwrites']) <= 2 else 'jwrite-again=') + enc(arg)
         elif kind == 'close' and role == 'j' and phase == 'j':
             s['jclose'] = o
             name = 'jclose'
@@ -545,7 +546,7 @@ def enc_optb(b):
 
 def model_line(before, journal0, s, src_fail):
     return ' '.join(['warcwrite run', enc_optb(before), enc_optb(journal0), s['getsize'], s['jopen'],
-                     ','.join(s['jwrites']) or '~', s['jclose'], s['junlink'], s['aopen'],
+                     s['jwrite'], s['jretry'], s['jclose'], s['junlink'], s['aopen'],
                      '/'.join(enc(d) for d in s['adata']) or '~', ','.join(s['aouts']) or '~',
                      'T' if src_fail else 'F', s['aclose'], s['ropen'], s['rtrunc'], s['rclose'], s['unlink']])
 
